@@ -1063,28 +1063,79 @@ pub fn add_unproductive(c: &mut Cfg, rng: &mut Rng) {
     if c.terms.is_empty() || c.nts.is_empty() {
         return;
     }
+    let n_before = c.nts.len();
     let u = c.nt("Abyss");
     let t1 = rng.below(c.terms.len());
-    match rng.below(3) {
+    match rng.below(7) {
+        // right recursion without a base case: FIRST is not empty
         0 => c.rule(u, vec![T(t1), N(u)]),
         1 => {
             let t2 = c.term("Pit");
             c.rule(u, vec![T(t2), N(u), T(t1)]);
         }
-        _ => {
+        2 => {
             let u2 = c.nt("Chasm");
             let t2 = c.term("Pit");
             c.rule(u, vec![T(t2), N(u2)]);
             c.rule(u2, vec![T(t1), N(u)]);
         }
+        // left recursion without a base case: FIRST is EMPTY and the nonterminal is not nullable
+        3 => c.rule(u, vec![N(u), T(t1)]),
+        4 => {
+            let t2 = c.term("Pit");
+            c.rule(u, vec![N(u), T(t1)]);
+            c.rule(u, vec![N(u), T(t2), N(u)]);
+        }
+        5 => {
+            // mutual left recursion without a base case
+            let u2 = c.nt("Chasm");
+            c.rule(u, vec![N(u2), T(t1)]);
+            c.rule(u2, vec![N(u)]);
+        }
+        _ => {
+            // needs itself twice
+            c.rule(u, vec![T(t1), N(u), N(u)]);
+        }
     }
-    let host = rng.below(c.nts.len().saturating_sub(1).max(1));
-    let intro = c.term("Descend");
-    if rng.chance(1, 2) {
-        c.rule(host, vec![T(intro), N(u)]);
-    } else {
-        let t3 = rng.below(c.terms.len());
-        c.rule(host, vec![T(intro), N(u), T(t3)]);
+    // reference it from a live rule: at the end, in the middle, or right at the start of a
+    // new alternative, with or without a leading token of its own
+    let host = rng.below(n_before);
+    let t3 = rng.below(c.terms.len());
+    match rng.below(5) {
+        0 => {
+            let intro = c.term("Descend");
+            c.rule(host, vec![T(intro), N(u)]);
+        }
+        1 => {
+            let intro = c.term("Descend");
+            c.rule(host, vec![T(intro), N(u), T(t3)]);
+        }
+        2 => {
+            // after a nonterminal: A -> B U ..  (the lookaheads of B's items come from FIRST(U ..))
+            let b = rng.below(n_before);
+            let intro = c.term("Descend");
+            c.rule(host, vec![T(intro), N(b), N(u), T(t3)]);
+        }
+        3 => {
+            let b = rng.below(n_before);
+            c.rule(host, vec![N(b), N(u)]);
+        }
+        _ => {
+            // splice it into an existing rule
+            let cand: Vec<usize> = (0..c.rules.len()).filter(|i| c.rules[*i].0 < n_before && !c.rules[*i].1.is_empty()).collect();
+            if cand.is_empty() {
+                let intro = c.term("Descend");
+                c.rule(host, vec![T(intro), N(u)]);
+            } else {
+                let ri = cand[rng.below(cand.len())];
+                let mut rhs = c.rules[ri].1.clone();
+                let lhs = c.rules[ri].0;
+                let p = rng.below(rhs.len() + 1);
+                rhs.insert(p, N(u));
+                // keep the original rule too (otherwise the language tends to become empty)
+                c.rule(lhs, rhs);
+            }
+        }
     }
 }
 
